@@ -174,6 +174,22 @@ Proof.
   unfold wf_ts, ts_of; cbn. repeat split.
   - apply sorted_fold_put; cbn; auto. intros; apply sorted_put; auto.
   - apply sorted_fold_put; cbn; auto. intros m a Hm. destruct (constr_name a); auto. apply sorted_put; auto.
+  - apply sorted_fold_put; cbn; auto. intros m a Hm. destruct (i_name a); auto. apply sorted_put; auto.
+Qed.
+
+Lemma cols_of_clear l : cols_of (map clear_flags l) = cols_of l.
+Proof.
+  unfold cols_of. generalize (@nil (str * colattr)). induction l as [|a r IH]; intros m; cbn; auto.
+Qed.
+
+(* re-creating a table from what DropTableOp.to_table describes gives the same state *)
+Lemma ts_of_recreate n s c p kw rev :
+  let td := drop_to_table n s c p kw rev in
+  ts_of (create_to_table (mkT n s (t_cols td) (t_cons td) [] c p kw) true) = ts_of td.
+Proof.
+  unfold ts_of, create_to_table, drop_to_table, flags_off.
+  cbn [t_cols t_cons t_idx t_name t_schema t_comment t_prefixes t_kw map]. rewrite cols_of_clear.
+  destruct rev; cbn [map]; rewrite ?map_onto_table_idem; reflexivity.
 Qed.
 
 Lemma wf_lookup A k ts : wf_db A -> lookup k A = Some ts -> wf_ts ts.
@@ -230,9 +246,9 @@ Proof. destruct x as [[|]|]; reflexivity. Qed.
 
 Lemma norm_to_from c : norm_constr (to_constraint (from_constraint c)) = norm_constr c.
 Proof.
-  destruct c as [n t s cs|n t s cs d i|n t s cs rt rs rcs o|n t s c]; cbn; try reflexivity.
-  - rewrite truthy_b_idem, truthy_s_idem. reflexivity.
-  - unfold norm_fkopts; cbn. rewrite !truthy_s_idem, truthy_b_idem. reflexivity.
+  destruct c as [n t s cs k|n t s cs d i k|n t s cs rt rs rcs o k|n t s c k]; cbn; try reflexivity.
+  - rewrite truthy_s_idem. reflexivity.
+  - unfold norm_fkopts; cbn. rewrite !truthy_s_idem. reflexivity.
 Qed.
 Lemma name_to_from c : constr_name (to_constraint (from_constraint c)) = constr_name c.
 Proof. destruct c; reflexivity. Qed.
@@ -317,6 +333,7 @@ Proof.
       rewrite put_del by auto. destruct ts; reflexivity.
     + repeat split; auto. apply sorted_del; auto.
   - (* CreateTableOp *)
+    destruct (t_idx t) eqn:Ei; [|discriminate].
     destruct (apply_op (CreateTableOp t if_not_exists constraints_included) A) as [B|] eqn:Hap; [|discriminate]. clear Hu.
     cbn [apply_op] in Hap. cbn in Hap.
     destruct (lookup (qkey (t_schema t) (t_name t)) A) eqn:Hl; [discriminate|]. inversion Hap; subst B; clear Hap.
@@ -327,13 +344,15 @@ Proof.
   - (* DropTableOp *)
     apply with_table_true in Hu as (ts & Hl & Hu). apply decb_true in Hu. subst ts.
     eexists; eexists. split; [reflexivity|]. cbn [apply_op]. rewrite Hl. split; [reflexivity|]. split.
-    + cbn. rewrite lookup_del_eq by apply Hwf.
-      unfold create_to_table, drop_to_table; cbn.
-      replace (match rev with Some r => map (onto_table name schema) (map (onto_table name schema) (tr_cons r)) | None => [] end)
-        with (match rev with Some r => map (onto_table name schema) (tr_cons r) | None => [] end).
-      2:{ destruct rev; auto. rewrite map_onto_table_idem. reflexivity. }
-      f_equal. apply put_del; [apply Hwf|].
-      rewrite Hl. f_equal. unfold drop_to_table. destruct rev; cbn; rewrite ?map_onto_table_idem; reflexivity.
+    + unfold create_from_table. cbn [apply_op].
+      pose proof (ts_of_recreate name schema comment prefixes kw rev) as E. cbn zeta in E.
+      change (t_name (drop_to_table name schema comment prefixes kw rev)) with name.
+      change (t_schema (drop_to_table name schema comment prefixes kw rev)) with schema.
+      change (t_comment (drop_to_table name schema comment prefixes kw rev)) with comment.
+      change (t_prefixes (drop_to_table name schema comment prefixes kw rev)) with prefixes.
+      change (t_kw (drop_to_table name schema comment prefixes kw rev)) with kw.
+      rewrite E. cbn [create_to_table t_name t_schema].
+      rewrite lookup_del_eq by apply Hwf. f_equal. apply put_del; [apply Hwf|exact Hl].
     + apply wf_del; auto.
   - (* CreateTableCommentOp *)
     apply with_table_true in Hu as (ts & Hl & Hu). apply decb_true in Hu. subst existing_comment.
